@@ -439,6 +439,9 @@ func (p *postHandshake) processPostHandshakeMessages(ctx context.Context, conn C
 			// cache: stop instead of handling it over and over again.
 			return dtlserrors.ErrUnexpectedPostHandshakeMessage
 		}
+		// Nothing reads a post-handshake message again once it has been
+		// handled: without this the cache grows with every one the peer sends.
+		p.cache.Remove(uint16(sequence), !p.state.IsClient) //nolint:gosec // bounded above
 	}
 
 	return dtlserrors.ErrHandshakeSequenceOverflow
